@@ -496,6 +496,7 @@ def main_replay(prop_id, path):
     with open(path, encoding='utf-8') as f:
         rec = json.load(f)
     ctx = Ctx(prop_id, rec.get('tier', 'quick'), rec['seed'], replay=True)
+    ctx.replay_rec = rec     # checks with worker state may replay recorded I/O
     signal.signal(signal.SIGVTALRM, _alarm)
     if hasattr(mod, 'prepare'):
         mod.prepare()
